@@ -15,7 +15,7 @@ import (
 func init() {
 	fw.Register(&fw.Check{
 		ID:          "C09",
-		Rule:        "cases: the finite grid from in {absent, a} x until in {absent, a-5, a, a+5, a+D-1, a+D, a+D+1} x anchoring time t in {from-1, from, from+1, until-1, until, until+1, from+D-1, from+D, from+D+1} x {update, recover, deactivate} x D=MaxOperationTimeDelta in {0, 1, 600, 7200}, enumerated completely; each grid point executed through the real applier after a valid create and compared in full with the state model whose window predicate is the one-line statement; then each other numeric protocol limit (MaxDeltaSize, MaxOperationSize, MaxOperationHashLength, NonceSize, MaxOperationCount, MaxCasURILength, the four file-size limits, GenesisTime, MaxMemoryDecompressionFactor) is set to values bracketing the grid's times and the verdicts must not move; finally non-batch parsing with a recording time validator must hand over exactly (from, until'). distinct = distinct (type, D, from?, until class, t class, verdict).",
+		Rule:        "cases: the finite grid from in {absent, a} (plus negative signed bounds: from in {-5, -50, -2^62, -D-5, -D+7}, until in {-50, -5, -2^62}) x until in {absent, a-5, a, a+5, a+D-1, a+D, a+D+1} x anchoring time t in {from-1, from, from+1, until-1, until, until+1, from+D-1, from+D, from+D+1} x {update, recover, deactivate} x D=MaxOperationTimeDelta in {0, 1, 600, 7200}, enumerated completely; each grid point executed through the real applier after a valid create and compared in full with the state model whose window predicate is the one-line statement; then each other numeric protocol limit (MaxDeltaSize, MaxOperationSize, MaxOperationHashLength, NonceSize, MaxOperationCount, MaxCasURILength, the four file-size limits, GenesisTime, MaxMemoryDecompressionFactor) is set to values bracketing the grid's times and the verdicts must not move; finally non-batch parsing with a recording time validator must hand over exactly (from, until'). distinct = distinct (type, D, from?, until class, t class, verdict).",
 		Assumptions: []string{"harness state machine and patch model", "the window predicate of the statement"},
 		Exhaustive:  func(tier string) bool { return tier == "thorough" },
 		Require:     []string{"grid-points", "in-window", "out-of-window", "other-parameter-variations", "time-validator-calls", "applier-with-refusing-validator"},
@@ -78,6 +78,27 @@ func c09Grid(delta int64) []gridPoint {
 			}
 		}
 	}
+	// negative signed bounds: the comparison stays a signed one (from <= t always holds for from < 0, a negative until' has always passed)
+	for _, n := range []struct {
+		from, until int64
+		c           string
+	}{{-5, 0, "neg-from"}, {-5, c09A, "neg-from"}, {0, -50, "neg-until"}, {c09A, -50, "neg-until"}, {-5, -50, "neg-both"}, {-50, -5, "neg-both"},
+		{-1 << 62, 0, "neg-from-huge"}, {0, -1 << 62, "neg-until-huge"}, {-delta - 5, 0, "neg-from-default-until-neg"}, {-delta + 7, 0, "neg-from-default-until-pos"}} {
+		for _, t := range []struct {
+			v int64
+			c string
+		}{{1, "one"}, {6, "six"}, {7, "seven"}, {8, "eight"}, {delta - 6, "D-6"}, {delta - 5, "D-5"}, {delta - 4, "D-4"}, {c09A - 1, "A-1"}, {c09A, "A"}, {c09A + 1, "A+1"}} {
+			if t.v <= 0 {
+				continue
+			}
+			key := fmt.Sprint(n.from, n.until, t.v)
+			if seen[key] {
+				continue
+			}
+			seen[key] = true
+			pts = append(pts, gridPoint{from: n.from, until: n.until, t: uint64(t.v), untilClass: n.c, tClass: t.c})
+		}
+	}
 	return pts
 }
 
@@ -96,7 +117,7 @@ func c09Run(c *fw.Case, typ byte, keyType string, proto protocol.Protocol, g gri
 		c.Count("out-of-window", 1)
 	}
 	c.Count("grid-points", 1)
-	c.Sig(typ, delta, g.from != 0, g.untilClass, g.tClass, in)
+	c.Sig(typ, delta, g.from != 0, g.from < 0, g.untilClass, g.tClass, in)
 	plan := []planEntry{{'c', "valid", nil}, {typ, fmt.Sprintf("window[from=%d,until=%d,t=%d,D=%d]", g.from, g.until, g.t, delta), func(h *histCtx, s *opStep) {
 		s.Spec.AnchorFrom, s.Spec.AnchorUntil = g.from, g.until
 		s.Anchor.Time = g.t
@@ -222,7 +243,7 @@ func c09Validator(c *fw.Case) {
 	}
 	kt := fw.Pick(r, gen.SigningKeyTypes)
 	for _, typ := range []byte("urd") {
-		for _, fu := range [][2]int64{{0, 0}, {c09A, 0}, {0, c09A + 5}, {c09A, c09A + 5}, {c09A, c09A - 5}, {c09A, c09A}, {1, 0}, {int64(r.Range(1, 1<<30)), 0}, {int64(r.Range(1, 1<<30)), int64(r.Range(1, 1<<30))}} {
+		for _, fu := range [][2]int64{{0, 0}, {c09A, 0}, {0, c09A + 5}, {c09A, c09A + 5}, {c09A, c09A - 5}, {c09A, c09A}, {1, 0}, {-5, 0}, {0, -50}, {-5, -50}, {-int64(r.Range(1, 1<<30)), 0}, {int64(r.Range(1, 1<<30)), 0}, {int64(r.Range(1, 1<<30)), int64(r.Range(1, 1<<30))}} {
 			rv := &recValidator{}
 			if r.Chance(1, 4) {
 				rv.err = operationparser.ErrOperationExpired
